@@ -181,7 +181,7 @@ class Gen:
                     return ["opt", tv] if self.r.random() < 0.2 else tv
                 return self.random_ty(1, allow)
             if self.has("enum") and self.r.random() < 0.45:
-                nv = self.r.randint(1, 3)
+                nv = self.r.choice([1, 2, 3, 3, 4, 5])
                 vs = []
                 for j in range(nv):
                     ts = [fty(("scalar", "named")) for _ in range(self.r.choice([0, 1, 1, 2, 3, 4]))]
@@ -268,7 +268,11 @@ class Gen:
                 return {"k": "list", "es": [self.expr(ty[1], d - 1)]}
             return {"k": "list", "es": [self.expr(ty[1], d - 1) for _ in range(n)]}
         if self.kind_of(ty) == "record":
-            fs = [[f, self.expr(ft, d - 1, True)] for f, ft in self.fields_of(ty)]
+            order = list(self.fields_of(ty))
+            # a literal may list the fields in any order; they are evaluated in the order written
+            if r.random() < 0.5:
+                r.shuffle(order)
+            fs = [[f, self.expr(ft, d - 1, True)] for f, ft in order]
             return {"k": "rec", "name": ty[1] if r.random() < 0.7 else "", "fs": fs}
         v, ts = r.choice(self.variants_of(ty))
         return {"k": "ctor", "en": ty[1], "v": v, "args": [self.expr(t, d - 1, True) for t in ts]}
@@ -673,13 +677,20 @@ class Gen:
                 out += self.observe({"k": "field", "e": e, "f": f}, ft, depth - 1)
             return out
         arms = []
-        for v, ts in self.variants_of(ty):
+        vs_ = list(self.variants_of(ty))
+        # sometimes only a few variants get an explicit arm (in any order) and `_` covers the rest
+        explicit = vs_
+        if len(vs_) > 1 and self.r.random() < 0.4:
+            explicit = self.r.sample(vs_, self.r.randint(1, len(vs_) - 1))
+        for v, ts in explicit:
             bs = [self.fresh("m") for _ in ts]
             body = []
             for b, bt in zip(bs, ts):
                 body += self.observe(var(b), bt, depth - 1)
             body.append(host("tick", "unit", self.tag(), []))
             arms.append({"v": v, "bs": bs, "g": [], "b": block(body)})
+        if len(explicit) < len(vs_):
+            arms.append({"v": "_", "bs": [], "g": [], "b": block([host("tick", "unit", self.tag(), [])])})
         out.append({"k": "match", "e": e, "arms": arms})
         return out
 
